@@ -39,7 +39,7 @@ type Query {
   stamp(x: Stamp): String
   win(x: Win, ws: [Win!]): String
 }
-type Mutation { mmulti(a: Int!, b: String): String }
+type Mutation { mmulti(a: Int!, b: String): String mstamp(x: Stamp): String }
 type Subscription { smulti(a: Int, b: String, c: Kind, d: [Int]): String  sin(x: In, r: Rec): String  swin(x: Win, at: Stamp): String }
 """ % "\n".join(fields)
 
@@ -121,6 +121,19 @@ def build_cases(tier):
                 continue
             cases.append(dict(kind="sub" if "subscription" in q2 else "scalar", query=q2, op=q2.split("(")[0].split()[1], vars=vs, options=dict(cfg), scalars=True,
                               tags={"configured_scalar"} | ({"subscription"} if "subscription" in q2 else set())))
+    # two variables of one configured scalar in one operation, and in two operations of one package (each evaluated)
+    two = "query T8($from: Stamp!, $to: Stamp!) { stamp(x: $from) s2: stamp(x: $to) }\n"
+    cases.append(dict(kind="scalar", query=two, op="T8", vars=[("from", "Stamp!", False), ("to", "Stamp!", False)], options={}, scalars=True, tags={"configured_scalar", "scalar_twice"}))
+    doc2 = "query T9a($a: Stamp!) { stamp(x: $a) }\nquery T9b($b: Stamp!, $w: Win) { stamp(x: $b) win(x: $w) }\nmutation T9c($c: Stamp!) { mstamp(x: $c) }\n"
+    for opn, vs in (("T9a", [("a", "Stamp!", False)]), ("T9b", [("b", "Stamp!", False), ("w", "Win", False)]), ("T9c", [("c", "Stamp!", False)])):
+        cases.append(dict(kind="scalar", query=doc2, op=opn, vars=vs, options={}, scalars=True, tags={"configured_scalar", "scalar_in_several_operations", f"op:{opn}"}))
+    # the OpenTelemetry copies have a separate code path when a tracer is configured
+    traced = [c for c in cases if c["options"] in ({}, {"async_client": False}) and (c["kind"] in ("multi", "sub", "scalar") or (c["kind"] == "typed" and ("type:In" in c["tags"] or "type:Rec" in c["tags"] or "shape:T" in c["tags"])))]
+    for c in traced:
+        if c["kind"] == "sub" and c["options"].get("async_client") is False:
+            continue
+        for tr in ("stub",) if tier == "quick" else ("stub", "noop"):
+            cases.append(dict(c, options=dict(c["options"], opentelemetry_client=True), tracer=tr, tags=set(c["tags"]) | {f"tracer:{tr}"}))
     return cases
 
 
@@ -137,6 +150,11 @@ STAMP_VALUES = {"Stamp": [0, 86400]}
 def stamp_build(name, v):
     import datetime
     return datetime.datetime.fromtimestamp(v, tz=datetime.timezone.utc)
+
+
+def opcheck_kind(options):
+    from mc.opcheck import client_kind
+    return client_kind(options)
 
 
 def type_of(schema, tstr):
@@ -210,10 +228,11 @@ def evaluate(case):
             except Exception as e:  # noqa
                 P.append(("cannot_build_argument", f"{type(e).__name__}: {e}", {"plan": plan}))
                 continue
+            ckw = clients.tracer_kwargs(opcheck_kind(options), case.get("tracer", "none"))
             if case["kind"] == "sub":
-                captured, (st, val) = inputs.call_and_capture_ws(mod, mods, mod.Client, mname, kwargs)
+                captured, (st, val) = inputs.call_and_capture_ws(mod, mods, mod.Client, mname, kwargs, client_kwargs=ckw)
             else:
-                captured, (st, val) = inputs.call_and_capture(mod, mod.Client, is_async, mname, kwargs)
+                captured, (st, val) = inputs.call_and_capture(mod, mod.Client, is_async, mname, kwargs, client_kwargs=ckw)
             ctx = {"plan": {k: v for k, v in plan.items()}}
             if missing_required:
                 if st == "exc" and isinstance(val, TypeError) and not captured:
@@ -290,7 +309,7 @@ def main(tier):
     distinct = 0
     for case, (st, r) in zip(cases, results):
         tags = set(case["tags"]) | {f"cfg:{k}={v}" for k, v in case["options"].items()}
-        desc = {"query": case["query"], "options": case["options"]}
+        desc = {"query": case["query"], "options": case["options"], "op": case["op"], "tracer": case.get("tracer", "none")}
         if rep.triage:
             rep.seen(tags)
         if st != "ok":
@@ -321,7 +340,8 @@ def replay(path):
     rec = json.load(open(path))
     c = rec["case"]
     genpkg.warm()
-    case = next((x for x in build_cases("thorough") if x["query"] == c["query"] and x["options"] == c["options"]), None)
+    case = next((x for x in build_cases("thorough") if x["query"] == c["query"] and x["options"] == c["options"] and x["op"] == c.get("op", x["op"])
+                 and x.get("tracer", "none") == c.get("tracer", "none")), None)
     if case is None:
         print("case not found")
         return 1
